@@ -529,7 +529,7 @@ func (x *Exec) applyContractWith(c *callCtx, fc *FuncContract, sig *types.Signat
 			x.contractError(c.fr, r, fmt.Errorf("at call from %s: %v", c.fr.fn.Name(), err))
 			continue
 		}
-		if top != nil && top.contract != nil && c.fr.depth == 0 && !fc.AssumeRequires {
+		if top != nil && top.contract != nil && c.fr.depth == 0 && !fc.AssumeRequires && !containsStr(top.contract.AssumeCallee, fc.Key()) {
 			ob := &Obligation{Name: fmt.Sprintf("%s#call:%s#requires%d@%d", top.contract.Key(), fc.Key(), i+1, seq), Kind: "requires", Fn: top.contract.Key(),
 				Props: unionProps(top.contract.Props, clauseProps(fc, r)), Clause: r.Src, Pos: x.prog.pos(c.instr.Pos())}
 			if c.fr.depth > 0 {
@@ -846,4 +846,13 @@ func (x *Exec) siteOrdinal(fr *Frame, target string, instr ssa.Instruction) int 
 		fr.siteIDs[key] = ids
 	}
 	return ids[instr]
+}
+
+func containsStr(xs []string, s string) bool {
+	for _, x := range xs {
+		if x == s {
+			return true
+		}
+	}
+	return false
 }
